@@ -1,8 +1,158 @@
 package main
 
 import (
+	"context"
+	"fmt"
+	"net"
+	"sort"
+	"strings"
+
+	"github.com/plgd-dev/go-coap/v3/message"
+	"github.com/plgd-dev/go-coap/v3/message/codes"
+	"github.com/plgd-dev/go-coap/v3/message/pool"
+	"github.com/plgd-dev/go-coap/v3/net/responsewriter"
+	"github.com/plgd-dev/go-coap/v3/udp/client"
+
 	"verif/ev"
 	"verif/mcx"
+	"verif/vrt"
+	"verif/worlds/srvw"
 )
 
-func addDiscovery(r *ev.Run, scs *[]*mcx.Scenario) {}
+// Discovery: one or two concurrent Discover calls (unicast target), 0..2 responders answering from
+// their own addresses with the right token, plus answers carrying the other call's token and an
+// unknown token, in every order.
+
+type dcfg struct {
+	Calls      int
+	Responders int
+	Preempt    int
+}
+
+func (c dcfg) String() string {
+	return fmt.Sprintf("udp-server discovery calls=%d responders=%d preempt<=%d", c.Calls, c.Responders, c.Preempt)
+}
+
+func discoveryScenario(c dcfg) *mcx.Scenario {
+	return &mcx.Scenario{
+		Name:   c.String(),
+		Bounds: mcx.Bounds{Preempt: c.Preempt, Env: -1, Select: 0, Delay: 2},
+		Opt:    vrt.Options{MaxSteps: 600000},
+		Body: func(s *vrt.Sched) func() (string, []mcx.Finding) {
+			var hist []string
+			var fs []mcx.Finding
+			fail := func(sig, format string, a ...any) {
+				fs = append(fs, mcx.Finding{Sig: sig, What: c.String() + ": " + fmt.Sprintf(format, a...) + "; order [" + strings.Join(hist, " ") + "]"})
+			}
+			var u *srvw.UDP
+			got := make([][]string, c.Calls) // per call: "remote|token|payload"
+			unknownHandled := 0
+			vrt.App("env", func() {
+				u = srvw.NewUDP(srvw.UDPOpts{Handler: func(w *responsewriter.ResponseWriter[*client.Conn], r *pool.Message) { unknownHandled++ }})
+				cancels := make([]context.CancelFunc, c.Calls)
+				done := make([]bool, c.Calls)
+				for i := 0; i < c.Calls; i++ {
+					i := i
+					ctx, cancel := context.WithCancel(context.Background())
+					cancels[i] = cancel
+					vrt.App(fmt.Sprintf("discover%d", i), func() {
+						err := u.S.Discover(ctx, "10.0.0.50:5683", fmt.Sprintf("/res%d", i), func(cc *client.Conn, resp *pool.Message) {
+							b, _ := resp.ReadBody()
+							got[i] = append(got[i], fmt.Sprintf("%s|%x|%s", cc.RemoteAddr(), []byte(resp.Token()), b))
+						})
+						if err != nil {
+							fail("discovery/discover-error", "Discover(%d) failed: %v", i, err)
+						}
+						done[i] = true
+					})
+				}
+				vrt.Quiesce("env: discovery requests sent")
+				toks := map[int]message.Token{}
+				for _, o := range u.NewOuts() {
+					m, err := srvw.DecodeUDP(o.Data)
+					if err != nil || m.Code != codes.GET {
+						continue
+					}
+					p, _ := m.Options.Path()
+					for i := 0; i < c.Calls; i++ {
+						if p == fmt.Sprintf("/res%d", i) {
+							toks[i] = m.Token
+						}
+					}
+				}
+				if len(toks) != c.Calls {
+					fail("discovery/request-not-sent", "%d discovery requests on the wire, %d calls", len(toks), c.Calls)
+					return
+				}
+				// the answers, delivered in every order
+				type ans struct {
+					from    *net.UDPAddr
+					tok     message.Token
+					payload string
+				}
+				var answers []ans
+				want := make([][]string, c.Calls)
+				for r := 0; r < c.Responders; r++ {
+					from := &net.UDPAddr{IP: net.IPv4(10, 0, 1, byte(1+r)), Port: 5683}
+					for i := 0; i < c.Calls; i++ {
+						pl := fmt.Sprintf("dev%d-for-call%d", r, i)
+						answers = append(answers, ans{from, toks[i], pl})
+						want[i] = append(want[i], fmt.Sprintf("%s|%x|%s", from, []byte(toks[i]), pl))
+					}
+				}
+				answers = append(answers, ans{&net.UDPAddr{IP: net.IPv4(10, 6, 6, 6), Port: 5683}, message.Token{0x99, 0x99}, "foreign-token"})
+				mid := int32(500)
+				for len(answers) > 0 {
+					k := vrt.Choose(len(answers), nil)
+					a := answers[k]
+					answers = append(answers[:k], answers[k+1:]...)
+					mid++
+					hist = append(hist, a.payload)
+					u.Send(a.from, srvw.EncodeUDP(message.Message{Type: message.NonConfirmable, Code: codes.Content, MessageID: mid, Token: a.tok, Payload: []byte(a.payload)}))
+					vrt.Quiesce("env: answer handled")
+				}
+				for i := range cancels {
+					cancels[i]()
+				}
+				vrt.Quiesce("env: discoveries ended")
+				for i := 0; i < c.Calls; i++ {
+					if !done[i] {
+						fail("discovery/discover-did-not-return", "Discover(%d) did not return after its context was cancelled", i)
+					}
+					g := append([]string{}, got[i]...)
+					w := append([]string{}, want[i]...)
+					sort.Strings(w)
+					gs := append([]string{}, g...)
+					sort.Strings(gs)
+					if fmt.Sprint(gs) != fmt.Sprint(w) {
+						fail("discovery/receiver-got-wrong-answers", "receiver of call %d got %v, expected exactly %v", i, g, want[i])
+					}
+				}
+				// a late answer after the call ended must not reach the receiver
+				before := len(got[0])
+				u.Send(&net.UDPAddr{IP: net.IPv4(10, 0, 1, 9), Port: 5683}, srvw.EncodeUDP(message.Message{Type: message.NonConfirmable, Code: codes.Content, MessageID: 900, Token: toks[0], Payload: []byte("late")}))
+				vrt.Quiesce("env: late answer handled")
+				if len(got[0]) != before {
+					fail("discovery/answer-after-end-delivered", "an answer that arrived after Discover returned reached the receiver")
+				}
+				u.S.Stop()
+				vrt.Quiesce("env: stopped")
+			})
+			return func() (string, []mcx.Finding) {
+				if u != nil {
+					u.Cleanup()
+				}
+				return strings.Join(hist, " "), fs
+			}
+		},
+	}
+}
+
+func addDiscovery(r *ev.Run, scs *[]*mcx.Scenario) {
+	for _, calls := range []int{1, 2} {
+		for _, resp := range []int{0, 1, 2} {
+			*scs = append(*scs, discoveryScenario(dcfg{Calls: calls, Responders: resp}))
+		}
+	}
+	*scs = append(*scs, discoveryScenario(dcfg{Calls: 2, Responders: 1, Preempt: 1}))
+}
